@@ -401,6 +401,17 @@ def _scenarios(repo):
         t.link(t.output(a), [], a)
         return a
 
+    def ring_pull_with_tail(t):
+        # ring A -> DELAY -> P (pull-based) -> A, resolved by the delay; a tail component S reads P as well.  The step starts at
+        # the tail: S's request is pending in P when the ring member A asks P for its own (earlier) time
+        a, p, s_ = t.comp("A"), t.comp("P", timed=False), t.comp("S")
+        _ads, reps = _reps(repo)
+        t.link(t.output(a), [reps[lek.DELAY]], p)
+        po = t.output(p, pull=True)
+        t.link(po, [], a)
+        t.link(po, [], s_)
+        return s_
+
     mk("chain2", chain2, "R03")
     mk("chain3", chain3, "R03")
     mk("via-pull", via_pull, "R03")
@@ -422,6 +433,7 @@ def _scenarios(repo):
     mk("cycle-with-delay", cycle_delay, "R09")
     mk("cycle-with-break", cycle_break, "R09")
     mk("self-loop", self_loop, "R09")
+    mk("delay-resolved-ring-through-pull-based-with-tail", ring_pull_with_tail, "R09p")
     return out
 
 
@@ -452,9 +464,12 @@ def _spec(topo, start, lag):
     active = []
 
     def visit(c, target):
-        if any(c is x for x in active):
+        # a time component is entered once per step; a pull-based component once per request time (entered again for ANOTHER time -
+        # a ring member asking while a slower consumer's request is pending - it answers another question: no cycle)
+        key = (c, None) if c.fields["_timed"] else (c, target)
+        if any(key[0] is x[0] and key[1] == x[1] for x in active):
             return ("cycle",)
-        active.append(c)
+        active.append(key)
         t = c.fields["next_time"] if c.fields["_timed"] else target
         for out, tau, owner in _effective_deps(topo, c, t):
             if owner.fields["_timed"]:
@@ -546,6 +561,13 @@ def _judge_step(topo, start, decs, outcome, it):
         got = ("update", updates[0])
         if val is not updates[0]:
             return f"returns {val!r} but updated {updates[0]!r}"
+    if got == ("cycle",) and not all(a == ("cycle",) for a in admissible):
+        # a circular-coupling error is a verdict about the whole step: it needs every lag test the cycle rests on.  Where the
+        # reference semantics still depends on a test the code never made, the error is declared without evidence
+        untested = [repr(t) for (o, t) in qs if (o.fields["time"], t) not in d]
+        other = sorted({_lbl(a) for a in admissible if a != ("cycle",)})
+        return (f"circular-coupling error although the dependency at {', '.join(untested)} was never tested: if it is satisfied the step is {' / '.join(other)} "
+                f"(lag tests made: {_fmt_decs(decs)})")
     if not any(_same(got, a) for a in admissible):
         exp = sorted({_lbl(a) for a in admissible})
         g = "circular-coupling error" if got == ("cycle",) else f"update of {got[1].label}"
@@ -587,11 +609,18 @@ def _fmt_decs(decs):
     return "{" + ", ".join(f"{c!r}={v}" for c, v in decs) + "}"
 
 
-def r03_r09_step(repo, sink):
+def r09p_ring_pull(repo, sink):
+    """Delay-resolved rings through pull-based components (C04 / C20 only): own rule id, same decision-table machinery."""
+    r03_r09_step(repo, sink, only=("R09p",))
+
+
+def r03_r09_step(repo, sink, only=("R03", "R09")):
     """Decision table of one scheduling step (`_update_recursive`) over small topologies."""
     f = repo.method("Composition", "_update_recursive")
     n_paths = 0
     for name, topo, start, rule in _scenarios(repo):
+        if rule not in only:
+            continue
         comp = topo.composition()
         it = SchedInterp(repo)
 
@@ -610,17 +639,22 @@ def r03_r09_step(repo, sink):
                          "(cycle not detected): run() would end in RecursionError instead of the circular-coupling error")
                 continue
             raise
-        worst = None
+        worst, worst_c = None, None
         for decs, outcome in paths:
             n_paths += 1
             why = _judge_step(topo, start, decs, outcome, it)
-            if why and worst is None:
+            if why and why.startswith("circular-coupling error although"):
+                worst_c = worst_c or why  # (its own obligation: the key names the failing outcome, see known_findings.json)
+            elif why and worst is None:
                 worst = why
         sink.check(worst is None, rule, f"step:{name}", f,
                    ok=f"{len(paths)} lag assignments: updated component / error as in the reference semantics",
                    bad=worst or "", paths=len(paths))
-    sink.note("R03.step.paths", n_paths)
-    sink.floor("R03", "scheduling-step scenarios", len(_scenarios(repo)), 21)
+        if worst_c is not None:
+            sink.bad(rule, f"step:{name}:circular-error-without-testing-a-dependency", f, worst_c)
+    if "R03" in only:
+        sink.note("R03.step.paths", n_paths)
+        sink.floor("R03", "scheduling-step scenarios", len(_scenarios(repo)), 21)
 
 
 def r09_structure(repo, sink):
